@@ -90,6 +90,12 @@ func (v varReader) Read(r io.Reader) ([]byte, error) {
 			return nil, fmt.Errorf("read %d/%d: %s",
 				i+1, size, err)
 		}
+		if len(data) == 0 {
+			// an element without representation (void, empty
+			// tuple): the others are empty as well, there is
+			// nothing to read whatever the announced size.
+			break
+		}
 		err = basic.WriteN(&buf, data, len(data))
 		if err != nil {
 			return nil, fmt.Errorf("read %d/%d: %s",
